@@ -132,9 +132,9 @@ func (c *BaseClient) Connect(ctx context.Context, clientID string, opts ...Conne
 	}()
 
 	chConnAck := make(chan *pktConnAck, 1)
-	c.mu.Lock()
+	c.sig.mu.Lock()
 	c.sig.chConnAck = chConnAck
-	c.mu.Unlock()
+	c.sig.mu.Unlock()
 
 	pkt := (&pktConnect{
 		ProtocolLevel: o.ProtocolLevel,
